@@ -12,3 +12,4 @@ void reg_copier();
 void reg_auth();
 void reg_lauth();
 void reg_slot();
+void reg_fs();
